@@ -13,7 +13,7 @@ from worlds import lis_phys as L
 
 PROPERTY = 'C05'
 LEVEL = 'exploration'
-RUNS = {'quick': 5000, 'thorough': 120000}
+RUNS = {'quick': 30000, 'thorough': 600000}
 RULE = ('scenario = seeded list of logical records, physical record length, trailer options, TIF mode (none/normal/reversed), '
         'greedy or foreign chunking, plus an explicit history of <= 24 reader operations; executed against the real FileWrite, '
         'FileRead (PhysRecRead, TifMarkerRead) and DeTif.strip_tif over SimFile. Non-trivial = at least one reach probe fires '
